@@ -146,7 +146,7 @@ var wideAttrs bool
 func filtered(m meas, f string) string {
 	if m.ovf {
 		switch f {
-		case "allow-a", "allow-ab":
+		case "allow-a", "allow-ab", "even-a-and-b":
 			return ""
 		}
 		return overflowKey
@@ -162,6 +162,11 @@ func filtered(m meas, f string) string {
 		return fmt.Sprintf("a=%d,b=%d", m.a, m.b)
 	case "deny-a":
 		return fmt.Sprintf("b=%d", m.b) + tail
+	case "even-a-and-b":
+		if m.a%2 == 0 {
+			return fmt.Sprintf("a=%d,b=%d", m.a, m.b)
+		}
+		return fmt.Sprintf("b=%d", m.b)
 	}
 	return fmt.Sprintf("a=%d,b=%d", m.a, m.b) + tail
 }
@@ -270,6 +275,20 @@ func viewConfig(cfg int) ([]sdkmetric.View, map[string][]streamSpec, string) {
 			sp.filter = "deny-a"
 			specs["ogi"] = []streamSpec{sp}
 		}
+	case 12:
+		// a filter is a predicate over key AND value: this one keeps "a" only while its value is even
+		name = "value-dependent attribute filter on every instrument"
+		views = append(views, sdkmetric.NewView(sdkmetric.Instrument{Name: "*"}, sdkmetric.Stream{AttributeFilter: func(kv attribute.KeyValue) bool {
+			if kv.Key == "a" {
+				return kv.Value.AsInt64()%2 == 0
+			}
+			return kv.Key == "b"
+		}}))
+		for _, i := range instruments {
+			s := def(i)
+			s.filter = "even-a-and-b"
+			specs[i] = []streamSpec{s}
+		}
 	case 8:
 		name = "valid views next to an incompatible sibling view"
 		views = append(views, sdkmetric.NewView(sdkmetric.Instrument{Name: "ci"}, sdkmetric.Stream{Name: "ci_valid", AttributeFilter: attribute.NewAllowKeysFilter("a")}),
@@ -369,7 +388,7 @@ func runHistory(k *vf.Case) {
 		fmt.Sscan(Lname, &L)
 	}
 	defer os.Unsetenv("OTEL_GO_X_CARDINALITY_LIMIT")
-	cfg := r.Intn(12)
+	cfg := r.Intn(13)
 	wideAttrs = r.Bool()
 	views, specs, cfgName := viewConfig(cfg)
 	dr := sdkmetric.NewManualReader(sdkmetric.WithTemporalitySelector(func(sdkmetric.InstrumentKind) metricdata.Temporality { return metricdata.DeltaTemporality }))
@@ -775,6 +794,121 @@ func runConcurrent(k *vf.Case) {
 	k.C.Sig(fmt.Sprintf("conc|%d|%v|%d", L, temp, G))
 }
 
+// runDisagree: two readers whose aggregation selectors disagree about dropping. Whatever one reader drops, the
+// other still reports every measurement: synchronous adds, observations made by instrument-level callbacks and
+// observations made through Meter.RegisterCallback.
+func runDisagree(k *vf.Case) {
+	r := k.R
+	ctx := context.Background()
+	os.Unsetenv("OTEL_GO_X_CARDINALITY_LIMIT")
+	dropKinds := map[sdkmetric.InstrumentKind]bool{}
+	for _, kd := range []sdkmetric.InstrumentKind{sdkmetric.InstrumentKindCounter, sdkmetric.InstrumentKindObservableCounter, sdkmetric.InstrumentKindObservableGauge, sdkmetric.InstrumentKindObservableUpDownCounter} {
+		if r.Bool() {
+			dropKinds[kd] = true
+		}
+	}
+	dropping := sdkmetric.NewManualReader(sdkmetric.WithAggregationSelector(func(kd sdkmetric.InstrumentKind) sdkmetric.Aggregation {
+		if dropKinds[kd] {
+			return sdkmetric.AggregationDrop{}
+		}
+		return sdkmetric.DefaultAggregationSelector(kd)
+	}))
+	keeping := sdkmetric.NewManualReader()
+	ropts := []sdkmetric.Option{sdkmetric.WithReader(dropping), sdkmetric.WithReader(keeping)}
+	if r.Bool() {
+		ropts[0], ropts[1] = ropts[1], ropts[0]
+	}
+	mp := sdkmetric.NewMeterProvider(ropts...)
+	defer mp.Shutdown(ctx)
+	m := mp.Meter("c12-disagree")
+	kindOf := map[string]sdkmetric.InstrumentKind{"c": sdkmetric.InstrumentKindCounter, "oc": sdkmetric.InstrumentKindObservableCounter, "og": sdkmetric.InstrumentKindObservableGauge, "ou": sdkmetric.InstrumentKindObservableUpDownCounter,
+		"oc_multi": sdkmetric.InstrumentKindObservableCounter, "og_multi": sdkmetric.InstrumentKindObservableGauge, "ou_multi": sdkmetric.InstrumentKindObservableUpDownCounter}
+	cur := map[string]map[int]int64{} // instrument -> a -> value observed in the current cycle
+	obs := func(name string) metric.Int64Callback {
+		return func(_ context.Context, o metric.Int64Observer) error {
+			for a, v := range cur[name] {
+				o.Observe(v, metric.WithAttributes(attribute.Int("a", a)))
+			}
+			return nil
+		}
+	}
+	c, _ := m.Int64Counter("c")
+	m.Int64ObservableCounter("oc", metric.WithInt64Callback(obs("oc")))
+	m.Int64ObservableGauge("og", metric.WithInt64Callback(obs("og")))
+	m.Int64ObservableUpDownCounter("ou", metric.WithInt64Callback(obs("ou")))
+	ocm, _ := m.Int64ObservableCounter("oc_multi")
+	ogm, _ := m.Int64ObservableGauge("og_multi")
+	oum, _ := m.Int64ObservableUpDownCounter("ou_multi")
+	multi := map[string]metric.Int64Observable{"oc_multi": ocm, "og_multi": ogm, "ou_multi": oum}
+	if _, err := m.RegisterCallback(func(_ context.Context, o metric.Observer) error {
+		for name, inst := range multi {
+			for a, v := range cur[name] {
+				o.ObserveInt64(inst, v, metric.WithAttributes(attribute.Int("a", a)))
+			}
+		}
+		return nil
+	}, ocm, ogm, oum); err != nil {
+		k.Violate("instrument-creation-error", "RegisterCallback", err.Error(), nil)
+		return
+	}
+	total := map[int]int64{}
+	for cyc := 0; cyc < 1+r.Intn(4); cyc++ {
+		for i := r.Intn(10); i > 0; i-- {
+			a, v := r.Intn(3), int64(1+r.Intn(50))
+			c.Add(ctx, v, metric.WithAttributes(attribute.Int("a", a)))
+			total[a] += v
+		}
+		for name := range kindOf {
+			if name == "c" {
+				continue
+			}
+			cur[name] = map[int]int64{}
+			for a := 0; a < 3; a++ {
+				if r.Bool() {
+					cur[name][a] = int64(1 + cyc*100 + r.Intn(50))
+				}
+			}
+		}
+		for _, rd := range []*sdkmetric.ManualReader{dropping, keeping} {
+			var rm metricdata.ResourceMetrics
+			if err := rd.Collect(ctx, &rm); err != nil {
+				k.Violate("collect-error", "readers disagreeing about drop", err.Error(), nil)
+				return
+			}
+			got, probs := read(&rm)
+			for _, p := range probs {
+				k.Violate("malformed-collection", "readers disagreeing about drop", p, nil)
+			}
+			for name, kd := range kindOf {
+				want := map[string]int64{}
+				if !(rd == dropping && dropKinds[kd]) {
+					src := cur[name]
+					if name == "c" {
+						src = total
+					}
+					for a, v := range src {
+						want[fmt.Sprintf("a=%d", a)] = v
+					}
+				}
+				bad := len(got[name]) != len(want)
+				for set, v := range want {
+					if g, ok := got[name][set]; !ok || int64(g.v) != v {
+						bad = true
+					}
+				}
+				if bad {
+					who := map[bool]string{true: "the reader that drops", false: "the reader that keeps everything"}[rd == dropping]
+					k.Violate("reader-disagreement", fmt.Sprintf("%s, kind %v", who, kd), fmt.Sprintf("dropped kinds for the other reader: %v; cycle %d: %s reports %v, want %v", dropKinds, cyc, name, got[name], want), nil)
+					return
+				}
+				k.C.Count("disagreeing_reader_streams_compared", 1)
+			}
+		}
+	}
+	k.C.Count("disagreeing_reader_histories", 1)
+	k.C.Sig(fmt.Sprintf("disagree|%d", len(dropKinds)))
+}
+
 func main() {
 	vf.Main("C12", "exploration", func(c *vf.Ctx) {
 		c.Rule = "seeded histories of 1-8 cycles with OTEL_GO_X_CARDINALITY_LIMIT in {unset,0,1,2,3,10,100}, streams of 1-400 distinct two-attribute sets in adversarial orders (all new, repeats around the L-1 boundary, reversed between cycles, random, the literal overflow set used as a normal set), delta and cumulative ManualReaders, sync counter/up-down/histogram/gauge and observable counter/gauge, eight view configurations (none, allow filter, deny filter, rename, re-aggregation incl. drop, two views to different streams, two views to the same stream, two instruments renamed onto one stream); every reported stream is compared point by point with a reference first-seen limiter + ledger; concurrent variant under -race asserting the bound and conserved totals. distinct = distinct (limit, view configuration, limit crossed, cycles class) signatures"
@@ -783,6 +917,8 @@ func main() {
 		otel.SetLogger(logr.Discard())
 		c.Isolated("histories", c.N(3200, 40_000), vf.IsoOpts{Batch: 100, Par: 16}, runHistory)
 		c.Isolated("concurrent", c.N(320, 4000), vf.IsoOpts{Batch: 20, Par: 16}, runConcurrent)
+		c.Isolated("disagree", c.N(600, 8000), vf.IsoOpts{Batch: 100, Par: 16}, runDisagree)
+		c.Floor("disagreeing_reader_histories", 300)
 		c.Floor("streams_compared", 50_000)
 		c.Floor("histories_crossing_the_limit", 500)
 		c.Floor("overflow_points_seen", 1000)
